@@ -97,6 +97,23 @@ def run(ctx):
     ctc = set(o for o, b, bi in call_sites(prog, CT) if not is_test_util(o))
     exp = {JOB + x for x in ('set_finished_state', 'set_failed_state', 'set_cancel_state', 'abort_tasks')} | {HQ + 'client::handle_job_close'}
     ctx.ob('R13.2', 'check_termination|callers', ctc == exp, f'check_termination is called from the four terminal setters and handle_job_close (observed {sorted(x.split("::")[-1] for x in ctc)})', None)
+    # handle_job_close: close first (so that the check sees a closed job and reports JobCompleted), and only for a job that was open
+    hjc = [prog.bodies[p_] for p_ in prog.with_closures(HQ + 'client::handle_job_close')]
+    for b_ in hjc:
+        ct_ = b_.call_blocks(CT)
+        if not ct_:
+            continue
+        cl_ = b_.call_blocks(JOB + 'close')
+        e_open, _c = guard_edges(b_, JOB + 'is_open', True)
+        ctx.ob('R13.2', 'handle_job_close|close before check_termination', bool(cl_) and all(c not in b_.reach_from([0], avoid=cl_) for c in ct_), 'Job::close dominates check_termination (checked while still open, an idle job only gets the ephemeral JobIdle and is never reported completed)', b_.loc(ct_[0]))
+        ctx.ob('R13.2', 'handle_job_close|check_termination only for a job that was open', bool(e_open) and all(dominated_by_edges(b_, c, e_open, False) for c in ct_), 'a close request for an already closed job does not run check_termination again (a completed job would be announced completed a second time)', b_.loc(ct_[0]))
+    # no job event is emitted after check_termination inside the Job methods (JobCompleted is the last record of a closed job:
+    # its replay forgets the job, a later record of the same job cannot be replayed)
+    for fn in ('set_finished_state', 'set_failed_state', 'set_cancel_state', 'abort_tasks'):
+        b_ = prog.body(JOB + fn)
+        ct_ = b_.call_blocks(CT)
+        late = [x for x in b_.call_blocks(lambda c: c.startswith(STREAMER + 'on_')) if any(x in b_.reach_after(c) for c in ct_)]
+        ctx.ob('R13.2', f'{fn}|no event after check_termination', not late, f'{fn}: every event of the job is emitted before check_termination (which may emit JobCompleted)', b_.loc(late[0]) if late else b_.loc())
     # empty-batch guard: set_cancel_state / abort_tasks return early for an empty id list (no second completion)
     for fn in ('set_cancel_state', 'abort_tasks'):
         b = prog.body(JOB + fn)
